@@ -26,6 +26,7 @@ func init() {
 			c.run("C13-R7", "PAIR: every exit of the handshake worker flushes", c13R7)
 			c.run("C13-S1", "shared with C03-R2/R3: the handshake line readers consume exactly the bytes of the line they return, so the flush hands on the rest", func(c *Ctx) { c03R2(c); c03R3(c) })
 			c.run("C13-S2", "shared with C14-R7: every chunk popped by the flush is forwarded as it is before the next pop (a merged or copied buffer is not the chunk; the relay never loses or duplicates parked bytes)", c14R7)
+			c.run("C13-S3", "shared with C06-R7: the relay's detector lives as long as its output pump (a detector made per chunk forgets the ids it has relayed; a redrawn trigger then starts a handshake nobody answers and every later byte is parked)", c06OneDetector)
 		})
 }
 
